@@ -71,6 +71,19 @@ def cases():
                         out.append({"c": name, "defs": list(defs), "pre": pre, "use": f"sib{j}", "ctx": "seq", "dk": "rtref"})
     for pre_kind in ("straight", "in_if"):
         out.append({"c": "state", "defs": [1], "pre": 0, "use": pre_kind, "ctx": "coro", "dk": "rtref"})
+    # the same placements with the value DEFINED by a call that has two return paths (the merged return value is itself
+    # assigned in both branches of an inner if/else)
+    for name, nb, has_default in CONSTRUCTS:
+        if name not in ("if", "ifelse", "match2d", "for2else", "nestedelse"):
+            continue
+        for defs in itertools.product((0, 1), repeat=nb):
+            for pre in (0, 1):
+                if not any(defs) and not pre:
+                    continue
+                out.append({"c": name, "defs": list(defs), "pre": pre, "use": "after", "ctx": "seq", "dk": "callret"})
+                for j in range(nb):
+                    if not defs[j]:
+                        out.append({"c": name, "defs": list(defs), "pre": pre, "use": f"sib{j}", "ctx": "seq", "dk": "callret"})
     # the same placements with the value CONSUMED differently after the construct: as the subject of a match without /
     # with a default (all patterns constant: one VHDL case statement whose selector is the only read) or in a comparison
     for name, nb, has_default in CONSTRUCTS:
@@ -139,7 +152,7 @@ def branch_body(c, j, ind):
     pad = " " * ind
     L = []
     if c["defs"][j]:
-        L.append(f"{pad}t = self.d[self.i2]" if c.get("dk") == "rtref" else f"{pad}t = self.d + {K[j]}")
+        L.append(f"{pad}t = self.d[self.i2]" if c.get("dk") == "rtref" else f"{pad}t = two(self.s2, self.d, {K[j]})" if c.get("dk") == "callret" else f"{pad}t = self.d + {K[j]}")
     if c["use"] == f"sib{j}":
         L.append(f"{pad}self.o[0] <<= t" if c.get("dk") == "rtref" else f"{pad}self.o <<= t")
     L.append(f"{pad}self.m <<= {j + 1}")
@@ -153,11 +166,18 @@ def render_src(c):
         "from cohdl import Bit, BitVector, Unsigned, Port, Signal, Variable, Null, Full, true, false",
         "from cohdl import std",
         "",
+        "def two(c, x, k):",
+        "    if c:",
+        "        return x + k",
+        "    else:",
+        "        return x + (k + 1)",
+        "",
         "class E(cohdl.Entity):",
         "    clk = Port.input(Bit)",
         "    a = Port.input(Bit)",
         "    b = Port.input(Bit)",
         "    c = Port.input(Bit)",
+        "    s2 = Port.input(Bit)",
         "    d = Port.input(Unsigned[4])",
         "    i2 = Port.input(Unsigned[2])",
         "    o = Port.output(Unsigned[4], default=0)",
@@ -185,7 +205,7 @@ def render_src(c):
         return "\n".join(H + ["            " + l for l in B]) + "\n"
     H.append("        async def proc():" if c["ctx"] == "coro" else "        def proc():")
     if c["pre"]:
-        B.append("t = self.d[self.i2]" if c.get("dk") == "rtref" else f"t = self.d + {KPRE}")
+        B.append("t = self.d[self.i2]" if c.get("dk") == "rtref" else f"t = two(self.s2, self.d, {KPRE})" if c.get("dk") == "callret" else f"t = self.d + {KPRE}")
     if name in ("if", "ifelse", "ifelif", "ifelifelse"):
         B.append("if self.a:")
         B += branch_body(c, 0, 4)
@@ -248,7 +268,7 @@ def render_src(c):
     return "\n".join(H + ["            " + l for l in B]) + "\n"
 
 
-def model_value(c, br, d, i2=0):
+def model_value(c, br, d, i2=0, s2=1):
     """value delivered to o on the path through branch br (None = fall-through), or 'hold' when o is not assigned"""
     if c.get("dk") == "rtref":
         bit = (d >> i2) & 1
@@ -257,6 +277,8 @@ def model_value(c, br, d, i2=0):
         return bit if br == int(c["use"][3:]) else "hold"
     if c["use"] == "after":
         v = (d + K[br]) & 15 if br is not None and c["defs"][br] else (d + KPRE) & 15 if c["pre"] else None
+        if v is not None and c.get("dk") == "callret" and not s2:
+            v = (v + 1) & 15
         if v is None or not c.get("uk"):
             return v
         if c["uk"] == "cmp":
@@ -264,7 +286,7 @@ def model_value(c, br, d, i2=0):
         return v if v in MATCH_VALUES else 14 if c["uk"] == "matchsubjd" else "hold"
     j = int(c["use"][3:])
     if br == j:
-        return (d + KPRE) & 15  # only reachable when predefined (sibling j does not define it)
+        return (d + KPRE + (1 if c.get("dk") == "callret" and not s2 else 0)) & 15  # only reachable when predefined (sibling j does not define it)
     return "hold"
 
 
@@ -272,7 +294,7 @@ def simulate(c, design, seed, idx):
     rs = rng.Stream(seed, "C08", "stim", idx)
     oseed = rng.derive(seed, "C08", "order", idx)
     d = dutm.Dut(design, oseed, "c08")
-    base = {"a": 0, "b": 0, "c": 0, "d": 0, "i2": 0}
+    base = {"a": 0, "b": 0, "c": 0, "d": 0, "i2": 0, "s2": 0}
     d.start(base)
     o_exp = 0
     forced = set()
@@ -313,12 +335,13 @@ def simulate(c, design, seed, idx):
         if "d" not in sel:
             inp["d"] = rs.below(16)
         inp["i2"] = rs.below(4)
+        inp["s2"] = rs.below(2)
         for x in "abc":
             if x not in sel:
                 inp[x] = rs.below(2)
         if c["ctx"] == "coro":
             d.clock(inp)  # the body runs completely, then `await true`: two clocks per iteration
-            v = model_value(c, br, inp["d"], inp["i2"])
+            v = model_value(c, br, inp["d"], inp["i2"], inp["s2"])
             if v is not None and v != "hold":
                 o_exp = v
             if v is None:
@@ -331,7 +354,7 @@ def simulate(c, design, seed, idx):
             d.half()
         else:
             d.clock(inp)
-            v = model_value(c, br, inp["d"], inp["i2"])
+            v = model_value(c, br, inp["d"], inp["i2"], inp["s2"])
             if v is None:
                 return "model", {"msg": "accepted although a path leaves the value undefined", "path": sel}, forced
             if v != "hold":
@@ -411,6 +434,9 @@ def generated(seed, idx, tier, j):
     which = "c03" if j % 3 else "c01"
     r = (c03 if which == "c03" else c01).run_one(seed, j, tier)
     res = {"idx": idx, "shape": f"gen:{which}:{r.get('shape')}", "case": {"c": "generated", "defs": [], "pre": 0, "use": which, "ctx": which}, "expected": "accept", "outcome": "accepted" if r["status"] in ("ok", "violation") else r["status"]}
+    if r["status"] not in ("ok", "violation"):
+        res["reason"] = "generated design: " + str(r.get("reason") or r["status"])[:80]
+        res["outcome"] = "rejected" if r["status"] == "rejected" else "accepted"
     if r["status"] == "violation" and r.get("vclass") == "rbw":
         res.update(status="violation", vclass="rbw", detail=dict(r["detail"], case=res["case"], generator=which, generator_run=j), payload={"case": res["case"], "seed": seed, "idx": idx, "tier": tier, "gen": which, "j": j})
     else:
@@ -520,7 +546,7 @@ def evidence(results, tier):
         by[k] = by.get(k, 0) + 1
     reasons = {}
     for r in rej:
-        reasons[r["reason"][:70]] = reasons.get(r["reason"][:70], 0) + 1
+        reasons[str(r.get("reason"))[:70]] = reasons.get(str(r.get("reason"))[:70], 0) + 1
     sample = [{"case": r["case"], "expected": r["expected"], "outcome": r.get("outcome"), "body": render_src(r["case"]).split("def architecture(self):")[1]} for r in results[:400] if r["case"]["c"] == "match2" and r["case"]["use"] == "after"][:2]
     return {
         "evaluations": len(results),
